@@ -655,6 +655,18 @@ func (fr *frame) slice(instr *ssa.Slice, x, lo, hi, max Value) Value {
 		if x == nil {
 			return []Value(nil)
 		}
+		if h > Len {
+			// re-slicing into the capacity exposes elements the engine never
+			// initialised: they are zero values of the element type
+			if st, ok := instr.X.Type().Underlying().(*types.Slice); ok {
+				full := x[:h]
+				for i := Len; i < h; i++ {
+					if full[i] == nil {
+						full[i] = in.zero(st.Elem())
+					}
+				}
+			}
+		}
 		return x[l:h:m]
 	case *Value:
 		a := (*x).(Array)
